@@ -1,7 +1,7 @@
 (* Proofs about Crypto/TempKeys.v: big.Int.Bytes()/fixed-width conversion, the temp-key formula,
    the padding wrappers and their round trips. *)
 From Coq Require Import ZArith NArith List Lia ZifyN ZifyNat ZifyBool Bool.
-From MTV Require Import Base.Bytes Base.Outcome Prim.Xor Prim.Aes256 Crypto.Ige Crypto.IgeMem Crypto.IgeProofs Crypto.TempKeys.
+From MTV Require Import Base.Bytes Base.Outcome Prim.Xor Prim.Aes256 Prim.Aes256Facts Crypto.Ige Crypto.IgeMem Crypto.IgeProofs Crypto.TempKeys.
 Import ListNotations.
 Open Scope nat_scope.
 Ltac Zify.zify_post_hook ::= Z.div_mod_to_equations.
@@ -416,16 +416,28 @@ Section RoundTrip.
 Variable H : bytes -> bytes.
 Variables E D : bytes -> bytes -> bytes.
 Hypothesis H_len : forall m, length (H m) = 20.
+Hypothesis H_ok : forall m, ok (H m).
 Hypothesis E_len : forall k b, length (E k b) = 16.
 Hypothesis D_len : forall k b, length (D k b) = 16.
-(* AES-256 is a permutation of 16-byte blocks under every 32-byte key *)
-Hypothesis DE : forall k b, length k = 32 -> length b = 16 -> D k (E k b) = b.
+Hypothesis E_ok : forall k b, ok k -> ok b -> ok (E k b).
+(* AES-256 is a permutation of the 16-byte blocks under every 32-byte key *)
+Hypothesis DE : forall k b, length k = 32 -> ok k -> length b = 16 -> ok b -> D k (E k b) = b.
+
+Lemma tmp_aes_key_ok a b : ok (tmp_aes_key H a b).
+Proof. unfold tmp_aes_key. apply ok_app. split; [apply H_ok|apply ok_firstn, H_ok]. Qed.
+
+Lemma tmp_aes_iv_ok a b : ok a -> ok (tmp_aes_iv H a b).
+Proof.
+  intros Ha. unfold tmp_aes_iv. rewrite !ok_app.
+  split; [apply ok_skipn, H_ok|]. split; [apply H_ok|apply ok_firstn, Ha].
+Qed.
 
 (* what DecryptMessageWithTempKeys does with anything a conformant peer (textbook IGE under the
    MTProto temp keys) produced from SHA1(payload) ++ payload ++ padding, padding 0..15 bytes *)
 Theorem decrypt_temp_peer (new_nonce server_nonce payload pad : bytes) :
   length new_nonce = 32 -> bytes_ok new_nonce = true ->
   length server_nonce = 16 -> bytes_ok server_nonce = true ->
+  ok payload -> ok pad ->
   length pad <= 15 -> Nat.modulo (20 + length payload + length pad) 16 = 0 ->
   (forall i, 0 < i <= length pad -> H (payload ++ firstn i pad) <> H payload) ->
   decrypt_temp H D
@@ -434,7 +446,7 @@ Theorem decrypt_temp_peer (new_nonce server_nonce payload pad : bytes) :
     (of_be new_nonce) (of_be server_nonce)
   = Ok payload.
 Proof.
-  intros L1 O1 L2 O2 Lp Hal NC. unfold decrypt_temp.
+  intros L1 O1 L2 O2 Opl Opad Lp Hal NC. unfold decrypt_temp.
   rewrite (generate_temp_keys_spec H H_len new_nonce server_nonce L1 O1 L2 O2). cbn [obind fst snd].
   set (key := tmp_aes_key H new_nonce server_nonce). set (iv := tmp_aes_iv H new_nonce server_nonce).
   set (pt := H payload ++ payload ++ pad).
@@ -448,7 +460,12 @@ Proof.
   set (ct := ige_encrypt E key iv pt).
   assert (Lct : length ct = length pt) by (apply (ige_encrypt_length E E_len key iv pt n); assumption).
   rewrite (do_decrypt_is_ige D D_len key iv ct (zbuf (length ct)) n Lk Liv) by (rewrite ?zbuf_length; lia).
-  unfold ct at 1. rewrite (ige_decrypt_encrypt E D E_len D_len key iv pt n (fun b Hb => DE key b (tmp_aes_key_length H H_len _ _) Hb) Liv Hn).
+  assert (Ok : ok key) by apply tmp_aes_key_ok.
+  assert (Oiv : ok iv) by (apply tmp_aes_iv_ok, O1).
+  assert (Opt : ok pt) by (unfold pt; rewrite !ok_app; auto).
+  unfold ct at 1.
+  rewrite (ige_decrypt_encrypt_ok E D E_len key iv pt n (fun b Hb => E_ok key b Ok Hb)
+             (fun b Hb Ob => DE key b (tmp_aes_key_length H H_len _ _) Ok Hb Ob) Liv Hn Oiv Opt).
   rewrite skipn_all2 by (rewrite zbuf_length; lia). rewrite app_nil_r. cbn [checked obind].
   rewrite !gslice_ok by lia. cbn [obind].
   change (20 - 0) with 20. rewrite skipn_O.
@@ -460,7 +477,7 @@ Proof.
 Qed.
 
 Theorem temp_roundtrip_own (rnd : nat -> bytes) (new_nonce server_nonce payload : bytes) :
-  (forall n, length (rnd n) = n) ->
+  (forall n, length (rnd n) = n) -> (forall n, ok (rnd n)) -> ok payload ->
   length new_nonce = 32 -> bytes_ok new_nonce = true ->
   length server_nonce = 16 -> bytes_ok server_nonce = true ->
   (forall i, 0 < i <= pad_need (20 + length payload) ->
@@ -469,7 +486,7 @@ Theorem temp_roundtrip_own (rnd : nat -> bytes) (new_nonce server_nonce payload 
              length ct = 20 + length payload + pad_need (20 + length payload) /\
              decrypt_temp H D ct (of_be new_nonce) (of_be server_nonce) = Ok payload.
 Proof.
-  intros Hr L1 O1 L2 O2 NC.
+  intros Hr Or Opl L1 O1 L2 O2 NC.
   pose proof (pad_need_lt (20 + length payload)) as Hlt.
   pose proof (pad_need_aligned (20 + length payload)) as Hal.
   eexists. split; [apply (encrypt_temp_spec H E H_len E_len); assumption|]. split.
@@ -479,6 +496,6 @@ Proof.
     rewrite (ige_encrypt_length E E_len _ _ pt (Nat.div (length pt) 16)); [exact Lpt| |].
     + apply tmp_aes_iv_length; assumption.
     + apply aligned_blocks. rewrite Lpt. exact Hal.
-  - apply decrypt_temp_peer; try assumption; rewrite Hr; [lia|exact Hal|exact NC].
+  - apply decrypt_temp_peer; try assumption; try apply Or; rewrite Hr; [lia|exact Hal|exact NC].
 Qed.
 End RoundTrip.
